@@ -464,7 +464,7 @@ def process(job, harness, env, seed, tier_quick):
                 z = scz(z)
                 cmds.append(("NM %d %s %s" % (prec, hq(z[0]), hq(z[1])), {"prim": "mnewton", "tag": tag, "z": z, "prec": prec}))
     if not job.get("newton_only") and not job.get("fixed_cmds"):
-        for tag, zs in distinct_sets(job, n, roots, mult, rng, min(kmax, 50)):
+        for tag, zs in distinct_sets(job, n, roots, mult, rng, min(kmax, 50))[:job.get("max_sets", 99)]:
             zs = [scz(z) for z in zs]
             flat = " ".join("%s %s" % (hq(z[0]), hq(z[1])) for z in zs)
             if not nofloat: cmds.append(("RF " + flat, {"prim": "fradii", "tag": tag, "zs": zs}))
@@ -579,6 +579,16 @@ def cdivq(a, b):
     return ((a[0] * b[0] + a[1] * b[1]) / d, (a[1] * b[0] - a[0] * b[1]) / d)
 
 
+def mt_cplx_mod(x):
+    """cplx_mod of floating-point/mt.c (non-builtin complex): |re| sqrt(1 + (im/re)^2) with the larger component outside"""
+    re, im = x.real, x.imag
+    if abs(re) > abs(im):
+        d = im / re; return abs(re) * math.sqrt(1.0 + d * d)
+    if im == 0.0: return 0.0
+    d = re / im
+    return abs(im) * math.sqrt(1.0 + d * d)
+
+
 def diagnose_newton(job, rec, p):
     """structural cause of a certified root-free Newton disc, from exact quantities (None = no specific cause recognised)"""
     try:
@@ -586,7 +596,7 @@ def diagnose_newton(job, rec, p):
         eps = Fr(1, 1 << 52) if rec["prim"] != "mnewton" else Fr(2, 1 << rec["wp"])
         dv = peval(pderiv(p), z)
         if dv == (0, 0): return None
-        if job["kind"] == "M" and rec["prim"] == "fnewton" and cabs(z) > 1:
+        if job["kind"] == "M" and rec["prim"] == "fnewton" and max(abs(cfl(z)), mt_cplx_mod(cfl(z))) > 1:      # the code's branch test, in double (cabs or mt.c's scaled formula, depending on the build)
             # den = (n q(w) - w q'(w)) w with q the reversed polynomial, w = 1/z: the a_0 terms cancel
             kappa = n * cabs(p[0]) / (cabs(z) * cabs(dv))
             if kappa * eps * 64 >= 1: return "reversed-horner-branch:derivative-cancellation"
@@ -786,11 +796,14 @@ def range_jobs(rng, quick):
     for name, q in qs:
         q = [(Fr(c[0]), Fr(c[1])) for c in q]
         n = len(q) - 1
-        for ce, se in (combos if not quick else [combos[(k + i) % len(combos)] for i in range(3)] if k >= 1 else combos[:4]):
+        if not quick: sel = combos
+        elif k == 0: sel = combos[:4]
+        else: sel = [(1100, 0), (0, 600)] if k % 2 else [(-1100, 0), (-1100, 600)]
+        for ce, se in sel:
             c = pow2(ce); sc = pow2(se)
             co = [(x[0] * c * sc ** (n - i), x[1] * c * sc ** (n - i)) for i, x in enumerate(q)]
             jobs.append(mono_job("%s*2^%d,roots*2^%d" % (name, ce, se), "beyond-double-range", co, oracle_mono=strip_zero(q), oscale=sc,
-                                 no_float=True, precs=[64, 256], rprecs=[64, 256], nrand=2))
+                                 no_float=True, precs=[64, 256], rprecs=[64, 256] if se >= 0 else [64], nrand=2, max_sets=6 if se >= 0 else 2))
         k += 1
     return jobs
 
